@@ -121,7 +121,8 @@ def gen_units(spec, lowered, work):
                     return '{ __CPROVER_assert(0, "EXTRACTION FAILED: %s"); __CPROVER_assume(0); }' % n
                 raise X.ExtractionError('template %s references unknown target %s' % (getattr(tmpl, '__name__', tmpl), n))
             ex = lowered[n]['ex']
-            return '/* lowered from %s */ %s /*@END %s@*/' % (ex.where(), lowered[n]['body'], n)
+            consts = ''.join('\n#undef %s\n#define %s (%s)\n' % (k, k, v) for k, v in lowered[n].get('consts', {}).items())
+            return '/* lowered from %s */ %s%s /*@END %s@*/' % (ex.where(), consts, lowered[n]['body'], n)
         text = re.sub(r'/\*@BODY (\w+)@\*/', sub, text)
         p = os.path.join(work, uname)
         open(p, 'w').write(text)
@@ -146,6 +147,8 @@ def compile_check(spec, uname, src, work):
         m = re.search(re.escape(src) + r':(\d+):', out) or re.search(r':(\d+):\d*:? *error', out)
         if not m:
             return None
+        ms = re.search(r"failed to find symbol '(\w+)'", out)
+        compile_check.symbol = ms.group(1) if ms else None
         line = int(m.group(1))
         if text is None:
             text = open(src).read()
@@ -491,12 +494,24 @@ def main():
     # left-over C++ in ONE lowered body must not take the whole unit down: compile each unit once per define-set; when goto-cc reports
     # an error inside a lowered body, that target is treated as not lowerable (its proofs become undecided) and the unit is regenerated
     for uname, tmpl in spec.UNITS.items():
-        for _round in range(6):
+        for _round in range(10):
             if uname not in units:
                 break
             bad = compile_check(spec, uname, units[uname], work)
             if not bad or bad in failed_targets:
                 break
+            # a named integer constant the changed text introduced or uses (static constexpr T NAME = <literal expression>; in the same
+            # file) is resolved mechanically from /repo and the unit regenerated
+            sym = getattr(compile_check, 'symbol', None)
+            if sym and bad in lowered and sym not in lowered[bad].setdefault('consts', {}):
+                tfile = [t.file for t in spec.TARGETS if t.name == bad][0]
+                mc = re.search(r'\b(?:constexpr|const)\s+(?:[\w:]+\s+)+' + sym + r'\s*=\s*([\dxXa-fA-FuUlL\s+\-*/()<>|&~]+);', open(os.path.join(REPO, tfile)).read())
+                if mc:
+                    lowered[bad]['consts'][sym] = mc.group(1).strip()
+                    log('NOTE %s: constant %s = %s resolved from %s' % (bad, sym, mc.group(1).strip(), tfile))
+                    one = type('S', (), dict(ID=spec.ID, UNITS={uname: tmpl}, FAILED_TARGETS=failed_targets))
+                    units.update(gen_units(one, lowered, work))
+                    continue
             failed_targets[bad] = '%s: the lowered text does not compile as C (left-over C++ after the lowering rules)' % bad
             lowered.pop(bad, None)
             try:
